@@ -59,12 +59,17 @@ def cases(ctx):
                 out.append({"kind": "cart", "w": wh[0], "h": wh[1], "isOffset": isOffset, "rings": n, "symmetry": sym})
     for b in ([0.0, 1.0], [0.0, 10.0, 25.0, 25.5], [-3.0, 0.0, 2.0, 7.0, 7.125], [0.0, 1.0, 2.0, 3.0, 4.0, 5.0]):
         out.append({"kind": "axial", "bounds": b})
+        out.append({"kind": "axial", "bounds": b, "offset": [1.5, -2.0, 3.25]})
     for th, r, z in (
         ([0.0, math.pi / 2, math.pi, 1.5 * math.pi, 2 * math.pi], [0.0, 1.0, 3.0], [0.0, 5.0, 7.5]),
         ([0.0, 2 * math.pi], [0.0, 2.0, 2.5, 8.0], [0.0, 1.0]),
         ([0.0, 1.0, 2.0], [1.0, 2.0], [-1.0, 0.0, 10.0]),
     ):
         out.append({"kind": "thetarz", "theta": th, "r": r, "z": z})
+        out.append({"kind": "nestrz", "theta": th, "r": r, "z": z})
+        # bounds-defined grids carry an offset too (native coordinates: theta, r, z)
+        out.append({"kind": "thetarz", "theta": th, "r": r, "z": z, "offset": [0.0, 0.0, 5.0]})
+        out.append({"kind": "thetarz", "theta": th, "r": r, "z": z, "offset": [0.125, 0.5, -2.0]})
     for outer in ("hex", "hexcu", "cart", "cartoff"):
         for inner in (None, "hex", "hexcu", "cart"):
             out.append({"kind": "nest", "outer": outer, "inner": inner, "rings": 3 if ctx.quick else 4})
@@ -341,7 +346,8 @@ def _eval_axial(case):
 
     vs = []
     b = case["bounds"]
-    g = grids.AxialGrid(bounds=(None, None, np.array(b, dtype=float)))
+    o = case.get("offset") or [0.0, 0.0, 0.0]
+    g = grids.AxialGrid(bounds=(None, None, np.array(b, dtype=float)), offset=case.get("offset"))
     g2 = type(g)(*g.reduce())
     nev = 0
 
@@ -355,7 +361,7 @@ def _eval_axial(case):
     for k in range(len(b) - 1):
         nev += 1
         c, lo, hi = g.getCoordinates((0, 0, k)), g.getCellBase((0, 0, k)), g.getCellTop((0, 0, k))
-        if not _close(c, (0, 0, (b[k] + b[k + 1]) / 2)) or not _close(lo, (0, 0, b[k])) or not _close(hi, (0, 0, b[k + 1])):
+        if not _close(c, (o[0], o[1], (b[k] + b[k + 1]) / 2 + o[2])) or not _close(lo, (o[0], o[1], b[k] + o[2])) or not _close(hi, (o[0], o[1], b[k + 1] + o[2])):
             bad("axial-coords", "cell %d: centre/base/top %s %s %s, bounds %s" % (k, list(c), list(lo), list(hi), b), cell=k)
         loc = g[0, 0, k]
         if (loc.i, loc.j, loc.k) != (0, 0, k) or loc.grid is not g:
@@ -384,7 +390,8 @@ def _eval_thetarz(case):
 
     vs = []
     th, r, z = case["theta"], case["r"], case["z"]
-    g = grids.ThetaRZGrid(bounds=(np.array(th), np.array(r), np.array(z)))
+    off = case.get("offset") or [0.0, 0.0, 0.0]
+    g = grids.ThetaRZGrid(bounds=(np.array(th), np.array(r), np.array(z)), offset=case.get("offset"))
     g2 = type(g)(*g.reduce())
     nev = 0
 
@@ -397,12 +404,12 @@ def _eval_thetarz(case):
         for j in range(len(r) - 1):
             for k in range(len(z) - 1):
                 nev += 1
-                t0, r0, z0 = (th[i] + th[i + 1]) / 2, (r[j] + r[j + 1]) / 2, (z[k] + z[k + 1]) / 2
+                t0, r0, z0 = (th[i] + th[i + 1]) / 2 + off[0], (r[j] + r[j + 1]) / 2 + off[1], (z[k] + z[k + 1]) / 2 + off[2]
                 nat = g.getCoordinates((i, j, k), nativeCoords=True)
                 xyz = g.getCoordinates((i, j, k))
                 if not _close(nat, (t0, r0, z0)) or not _close(xyz, (r0 * math.cos(t0), r0 * math.sin(t0), z0)):
                     bad("thetarz-coords", "cell %s native %s xyz %s" % ((i, j, k), list(nat), list(xyz)), cell=[i, j, k])
-                if not _close(g.getCellBase((i, j, k)), (th[i], r[j], z[k])) or not _close(g.getCellTop((i, j, k)), (th[i + 1], r[j + 1], z[k + 1])):
+                if not _close(g.getCellBase((i, j, k)), (th[i] + off[0], r[j] + off[1], z[k] + off[2])) or not _close(g.getCellTop((i, j, k)), (th[i + 1] + off[0], r[j + 1] + off[1], z[k + 1] + off[2])):
                     bad("thetarz-base-top", "cell %s base/top wrong" % ((i, j, k),), cell=[i, j, k])
                 rp = g.getRingPos((i, j, k))
                 if tuple(g.getIndicesFromRingAndPos(*rp)) != (i, j):
@@ -564,7 +571,54 @@ def _eval_nest3d(case):
     return vs, nev, nev
 
 
-_EVAL = {"hex": _eval_hex, "hexcount": _eval_hexcount, "cart": _eval_cart, "axial": _eval_axial, "thetarz": _eval_thetarz, "nest": _eval_nest, "nest3d": _eval_nest3d}
+def _eval_nestrz(case):
+    """axial grid nested in a theta-R-Z grid: coordinates add in Cartesian AND in native form."""
+    import numpy as np
+
+    from armi.reactor import composites, grids
+
+    vs = []
+
+    def bad(key, msg, **kw):
+        c = dict(case)
+        c.update(kw)
+        vs.append(core.viol("c07/" + key, msg, c))
+
+    th, r, z = case["theta"], case["r"], case["z"]
+    root = composites.Composite("root")
+    top = composites.Composite("core")
+    root.add(top)
+    top.spatialGrid = grids.ThetaRZGrid(bounds=(np.array(th), np.array(r), np.array(z)), armiObject=top)
+    zb = [0.0, 1.0, 2.5]
+    nev = 0
+    for i in range(len(th) - 1):
+        for j in range(len(r) - 1):
+            for k in range(len(z) - 1):
+                a = composites.Composite("a")
+                top.add(a)
+                a.spatialLocator = top.spatialGrid[i, j, k]
+                t0, r0, z0 = (th[i] + th[i + 1]) / 2, (r[j] + r[j + 1]) / 2, (z[k] + z[k + 1]) / 2
+                a.spatialGrid = grids.AxialGrid(bounds=(None, None, np.array(zb)), armiObject=a)
+                for kk in range(2):
+                    nev += 1
+                    b = composites.Composite("b")
+                    a.add(b)
+                    b.spatialLocator = a.spatialGrid[0, 0, kk]
+                    zm = (zb[kk] + zb[kk + 1]) / 2
+                    want = (r0 * math.cos(t0), r0 * math.sin(t0), z0 + zm)
+                    got = b.spatialLocator.getGlobalCoordinates()
+                    if not _close(got, want):
+                        bad("nest-coords-thetarz", "axial cell %d in theta-R-Z cell %s: global %s expected %s" % (kk, (i, j, k), list(got), want), cell=[i, j, k, kk])
+                    wantn = (t0, r0, z0 + zm)
+                    gotn = b.spatialLocator.getGlobalCoordinates(nativeCoords=True)
+                    if not _close(gotn, wantn):
+                        bad("nest-coords-thetarz-native", "axial cell %d in theta-R-Z cell %s: native global coordinates %s, parent native + local native = %s" % (kk, (i, j, k), list(gotn), wantn), cell=[i, j, k, kk])
+                    if not _close(a.spatialLocator.getGlobalCoordinates(nativeCoords=True), (t0, r0, z0)):
+                        bad("nest-coords-thetarz-native", "theta-R-Z cell %s: native global coordinates %s expected %s" % ((i, j, k), list(a.spatialLocator.getGlobalCoordinates(nativeCoords=True)), (t0, r0, z0)), cell=[i, j, k])
+    return vs, nev, nev
+
+
+_EVAL = {"hex": _eval_hex, "hexcount": _eval_hexcount, "cart": _eval_cart, "axial": _eval_axial, "thetarz": _eval_thetarz, "nest": _eval_nest, "nest3d": _eval_nest3d, "nestrz": _eval_nestrz}
 
 
 def run(ctx):
